@@ -4,6 +4,7 @@ C18 — Checksum backends are interchangeable: the bundled streaming code comput
 Property theorems only (helper lemmas live in ZckModel/Sha/Lemmas.lean).
 -/
 import ZckModel.Sha.Lemmas
+import ZckModel.Sha.Lemmas1
 import ZckModel.Pred.C18
 
 namespace Zck.C18
@@ -54,11 +55,19 @@ theorem bundled_sha512 (segs : List Bytes) (h : segs.flatten.length < 2 ^ 61) :
     (by show 8 * _ < 2 ^ 64; omega) (by show 8 * _ < 256 ^ 8; omega)]
   exact ⟨rfl, rfl⟩
 
+/-- **C18, SHA-1**: the bundled `SHA1_Update` / `SHA1_Final` (padding fed through update byte by byte, 61-bit byte counter) =
+FIPS SHA-1 for every message shorter than 2^61 bytes and every segmentation. -/
+theorem bundled_sha1 (segs : List Bytes) (h : segs.flatten.length < 2 ^ 61) :
+    bundledHash 0 segs = zckHash 0 segs.flatten := by
+  simp only [bundledHash, zckHash]
+  rw [stream1_eq_spec segs h]
+
 /-- **split independence** (corollary): two segmentations of the same message give the same digest -/
-theorem split_indep (t : Nat) (ht : t = 1 ∨ t = 2 ∨ t = 3) (s1 s2 : List Bytes)
+theorem split_indep (t : Nat) (ht : t = 0 ∨ t = 1 ∨ t = 2 ∨ t = 3) (s1 s2 : List Bytes)
     (hj : s1.flatten = s2.flatten) (h : s1.flatten.length < 2 ^ 61) :
     bundledHash t s1 = bundledHash t s2 := by
-  rcases ht with rfl | rfl | rfl
+  rcases ht with rfl | rfl | rfl | rfl
+  · rw [bundled_sha1 s1 h, bundled_sha1 s2 (hj ▸ h), hj]
   · rw [bundled_sha256 s1 h, bundled_sha256 s2 (hj ▸ h), hj]
   · rw [(bundled_sha512 s1 h).1, (bundled_sha512 s2 (hj ▸ h)).1, hj]
   · rw [(bundled_sha512 s1 h).2, (bundled_sha512 s2 (hj ▸ h)).2, hj]
@@ -67,11 +76,12 @@ theorem split_indep (t : Nat) (ht : t = 1 ∨ t = 2 ∨ t = 3) (s1 s2 : List Byt
 theorem sha512_128 (m : Bytes) : zckHash 3 m = (zckHash 2 m).map (·.take 16) := rfl
 
 /-- the predicate the driver evaluates holds of the bundled model's output -/
-theorem c18_model_ok (t : Nat) (ht : t = 1 ∨ t = 2 ∨ t = 3) (segs : List Bytes)
+theorem c18_model_ok (t : Nat) (ht : t = 0 ∨ t = 1 ∨ t = 2 ∨ t = 3) (segs : List Bytes)
     (h : segs.flatten.length < 2 ^ 61) (d : Bytes) (hd : bundledHash t segs = some d) :
     c18_ok t segs d = true := by
   unfold c18_ok
-  rcases ht with rfl | rfl | rfl
+  rcases ht with rfl | rfl | rfl | rfl
+  · rw [← bundled_sha1 segs h, hd]; simp
   · rw [← bundled_sha256 segs h, hd]; simp
   · rw [← (bundled_sha512 segs h).1, hd]; simp
   · rw [← (bundled_sha512 segs h).2, hd]; simp
